@@ -259,6 +259,17 @@ pub fn run(run: &Arc<Run>) {
             pool.push((k, *x));
         }
     }
+    // neighbours: equality is equality of the level, not closeness
+    for k in 0..3 {
+        for x in [0.95f64, 0.5, 0.1, 1e-300] {
+            pool.push((k, f64::from_bits(x.to_bits() + 1)));
+            pool.push((k, f64::from_bits(x.to_bits() - 1)));
+        }
+        pool.push((k, 1.0 - 0.05));
+        pool.push((k, f64::MIN_POSITIVE));
+        pool.push((k, 1e-17));
+        pool.push((k, 1.0 - 2f64.powi(-52)));
+    }
     if let Some(case) = &run.replay_case {
         let mut l = run.local();
         if case["what"] == "level" {
